@@ -58,9 +58,10 @@ theorem attrValid_intro (S : List Str) (k v : Str) (h1 : pyDeclOk (k, v) = true)
 theorem validDoc_elem {sc : List Str} {t : Str} {a : List (Str × Str)} {ks : List Node}
     (ha : a.all (attrValid (a.filterMap pyDeclared ++ sc)) = true)
     (ht : nameValid (a.filterMap pyDeclared ++ sc) t = true)
-    (hk : validKids (a.filterMap pyDeclared ++ sc) ks = true) : validDoc sc (.elem t a ks) = true := by
+    (hk : validKids (a.filterMap pyDeclared ++ sc) ks = true) (he : elemPrefixOk t = true) :
+    validDoc sc (.elem t a ks) = true := by
   simp only [validDoc, Bool.and_eq_true]
-  refine ⟨⟨⟨?_, ht⟩, ?_⟩, hk⟩
+  refine ⟨⟨⟨⟨?_, ht⟩, ?_⟩, hk⟩, he⟩
   · exact all_imp (fun kv h => by simp only [attrValid, Bool.and_eq_true] at h; exact h.1.1) ha
   · exact all_imp (fun kv h => by
       simp only [attrValid, Bool.and_eq_true] at h ⊢; exact ⟨h.1.2, h.2⟩) ha
@@ -68,8 +69,9 @@ theorem validDoc_elem {sc : List Str} {t : Str} {a : List (Str × Str)} {ks : Li
 /-- an element whose attributes were checked in the outer scope -/
 theorem validDoc_elem' {sc : List Str} {t : Str} {a : List (Str × Str)} {ks : List Node}
     (ha : a.all (attrValid sc) = true) (ht : nameValid sc t = true)
-    (hk : validKids (a.filterMap pyDeclared ++ sc) ks = true) : validDoc sc (.elem t a ks) = true :=
-  validDoc_elem (all_attrValid_mono _ _ _ ha) (nameValid_mono _ _ _ ht) hk
+    (hk : validKids (a.filterMap pyDeclared ++ sc) ks = true) (he : elemPrefixOk t = true) :
+    validDoc sc (.elem t a ks) = true :=
+  validDoc_elem (all_attrValid_mono _ _ _ ha) (nameValid_mono _ _ _ ht) hk he
 
 theorem validKids_cons {sc : List Str} {k : Node} {ks : List Node} (h1 : validDoc sc k = true)
     (h2 : validKids sc ks = true) : validKids sc (k :: ks) = true := by
@@ -94,8 +96,17 @@ theorem nameValid_prefixed (S : List Str) (q p : Str) (h1 : isXmlTag q = true) (
   simp only [nameValid, h1, h2, Bool.true_and, Bool.or_eq_true]
   exact Or.inr hp
 
-theorem pyDeclOk_of_not_decl (k v : Str) (h : startsWith k xmlnsColon = false) : pyDeclOk (k, v) = true := by
-  simp [pyDeclOk, pyDeclared, h]
+theorem pyDeclOk_of_not_decl (k v : Str) (h : isNsDecl k = false) : pyDeclOk (k, v) = true := by
+  have h' : startsWith k xmlnsColon = false := by
+    simp only [isNsDecl, Bool.or_eq_false_iff] at h; exact h.2
+  simp [pyDeclOk, pyDeclared, h, h']
+
+/-- the default-namespace attribute of the instance root (`instance_xmlns`) -/
+theorem pyDeclOk_default (v : Str) (h : reservedNs v = false) : pyDeclOk ("xmlns".toList, v) = true := by
+  have h' : pyDeclared ("xmlns".toList, v) = none := by
+    have : startsWith "xmlns".toList xmlnsColon = false := by decide
+    simp only [pyDeclared, this]; rfl
+  simp only [pyDeclOk, h', h, Bool.and_false, Bool.not_false, Bool.and_self]
 
 /-! ## the scope Python computes on `<h:html>` -/
 
@@ -158,18 +169,19 @@ theorem pyScope_entities (f : Fields) (hef : f.entityFeatures = true) :
     sense, neither `xml` nor `xmlns`; the URI (quotes removed) is non-empty XML characters -/
 def tokValid (kv : Str × Str) : Bool :=
   ncName kv.1 == some [] && kv.1 != "xml".toList && kv.1 != "xmlns".toList &&
-  !(stripQuotes kv.2).isEmpty && (stripQuotes kv.2).all isXmlChar
+  !(stripQuotes kv.2).isEmpty && (stripQuotes kv.2).all isXmlChar && !reservedNs (stripQuotes kv.2)
 
 theorem xmlnsColon_join (k : Str) : xmlnsColon ++ k = "xmlns".toList ++ ':' :: k := by simp [xmlnsColon]
 
 theorem attrValid_token (S : List Str) (kv : Str × Str) (h : tokValid kv = true) :
     attrValid S (xmlnsColon ++ kv.1, stripQuotes kv.2) = true := by
   simp only [tokValid, Bool.and_eq_true, beq_iff_eq, bne_iff_ne, Bool.not_eq_true'] at h
-  obtain ⟨⟨⟨⟨h1, h2⟩, h3⟩, h4⟩, h5⟩ := h
+  obtain ⟨⟨⟨⟨⟨h1, h2⟩, h3⟩, h4⟩, h5⟩, h6⟩ := h
   refine attrValid_intro S _ _ ?_ ?_ h5
   · have hd : pyDeclared (xmlnsColon ++ kv.1, stripQuotes kv.2) = some kv.1 := by
       simp only [pyDeclared, startsWith_self_append, if_true, drop_xmlns]
-    simp only [pyDeclOk, hd, h4, Bool.not_false, Bool.true_and, Bool.and_eq_true, bne_iff_ne]
+    simp only [pyDeclOk, hd, h4, h6, Bool.not_false, Bool.true_and, Bool.and_eq_true, bne_iff_ne, Bool.and_false,
+      Bool.not_false, and_true]
     exact ⟨h2, h3⟩
   · have hp : partitionColon (xmlnsColon ++ kv.1) = ("xmlns".toList, true) := by
       rw [xmlnsColon_join]; exact partitionColon_join _ _ xmlns_nocolon
@@ -200,7 +212,10 @@ def pyR (f : Fields) : List Str := (rootAttrs f).filterMap pyDeclared ++ pyS f
 structure HeaderValid (f : Fields) : Prop where
   tokens : (nsPairs (nsString f)).all tokValid = true
   attrib : f.attrib.all (attrValid (pyR f)) = true
+  instAttrs : f.instAttrs.all (attrValid (pyR f)) = true
   name : nameValid (pyR f) f.name = true
+  nameEl : elemPrefixOk f.name = true
+  xmlnsFree : reservedNs f.instanceXmlns = false
   title : f.title.all isXmlChar = true
   idString : f.idString.all isXmlChar = true
   style : f.style.all isXmlChar = true
@@ -222,8 +237,8 @@ structure PartsValid (f : Fields) (itext : Option (List Node)) (rk rest bk : Lis
 
 theorem validDoc_elem0 {sc : List Str} {t : Str} {a : List (Str × Str)} {ks : List Node}
     (h0 : a.filterMap pyDeclared = []) (ha : a.all (attrValid sc) = true) (ht : nameValid sc t = true)
-    (hk : validKids sc ks = true) : validDoc sc (.elem t a ks) = true := by
-  apply validDoc_elem' ha ht
+    (hk : validKids sc ks = true) (he : elemPrefixOk t = true) : validDoc sc (.elem t a ks) = true := by
+  refine validDoc_elem' ha ht ?_ he
   rw [h0]; exact hk
 
 theorem pyScope_nil : ([] : List (Str × Str)).filterMap pyDeclared = [] := rfl
@@ -259,7 +274,7 @@ theorem validator_complete (f : Fields) (itext : Option (List Node)) (rk rest bk
   have hh : (pyS f).contains "h".toList = true := pyScope_static f _ (by decide +kernel) (by decide +kernel)
   have hodk : (pyS f).contains "odk".toList = true := pyScope_static f _ (by decide +kernel) (by decide +kernel)
   have horx : (pyS f).contains "orx".toList = true := pyScope_static f _ (by decide +kernel) (by decide +kernel)
-  have nd : ∀ k v, startsWith k xmlnsColon = false → pyDeclOk (k, v) = true := pyDeclOk_of_not_decl
+  have nd : ∀ k v, isNsDecl k = false → pyDeclOk (k, v) = true := pyDeclOk_of_not_decl
   -- submission
   have hsubA : (subAttrs f).all (attrValid (pyS f)) = true := by
     refine all_subAttrs _ f ?_ ?_ ?_ ?_ ?_
@@ -273,28 +288,28 @@ theorem validator_complete (f : Fields) (itext : Option (List Node)) (rk rest bk
     split
     · exact validKids_nil _
     · exact validKids_cons (validDoc_elem' (all_setAttrs _ _ [] rfl hsubA)
-        (nameValid_plain _ _ (by decide) (by decide)) (validKids_nil _)) (validKids_nil _)
+        (nameValid_plain _ _ (by decide) (by decide)) (validKids_nil _) (by decide)) (validKids_nil _)
   -- itext
   have hitext : validKids (pyS f) (itextPart itext) = true := by
     cases itext with
     | none => exact validKids_nil _
     | some ks =>
       exact validKids_cons (validDoc_elem0 pyScope_nil (all_nil_valid _)
-        (nameValid_plain _ _ (by decide) (by decide)) (pit ks rfl)) (validKids_nil _)
+        (nameValid_plain _ _ (by decide) (by decide)) (pit ks rfl) (by decide)) (validKids_nil _)
   -- primary instance
   have hodkR : (pyR f).contains "odk".toList = true := contains_of_right _ _ _ hodk
   have hrootA : (rootAttrs f).all (attrValid (pyR f)) = true := by
-    apply all_rootAttrs _ f H.attrib
+    apply all_rootAttrs _ f H.instAttrs H.attrib
     · exact attrValid_intro _ _ _ (nd _ _ (by decide)) (nameValid_plain _ _ (by decide) (by decide)) H.idString
-    · exact attrValid_intro _ _ _ (nd _ _ (by decide)) (nameValid_plain _ _ (by decide) (by decide)) H.instanceXmlns
+    · exact attrValid_intro _ _ _ (pyDeclOk_default _ H.xmlnsFree) (nameValid_plain _ _ (by decide) (by decide)) H.instanceXmlns
     · exact attrValid_intro _ _ _ (nd _ _ (by decide)) (nameValid_plain _ _ (by decide) (by decide)) H.version
     · exact attrValid_intro _ _ _ (nd _ _ (by decide)) (nameValid_prefixed _ _ "odk".toList (by decide) (by decide) hodkR) H.pfx
     · exact attrValid_intro _ _ _ (nd _ _ (by decide)) (nameValid_prefixed _ _ "odk".toList (by decide) (by decide) hodkR) H.delimiter
   have hroot : validDoc (pyS f) (.elem f.name (rootAttrs f) rk) = true :=
-    validDoc_elem hrootA H.name prk
+    validDoc_elem hrootA H.name prk H.nameEl
   have hinst : validDoc (pyS f) (pyNode "instance".toList [] [.elem f.name (rootAttrs f) rk]) = true :=
     validDoc_elem0 pyScope_nil (all_nil_valid _) (nameValid_plain _ _ (by decide) (by decide))
-      (validKids_cons hroot (validKids_nil _))
+      (validKids_cons hroot (validKids_nil _)) (by decide)
   have hmk : validKids (pyS f) (modelKids f itext rk rest) = true := by
     unfold modelKids
     rw [validKids_append, validKids_append, hsub, hitext]
@@ -314,16 +329,16 @@ theorem validator_complete (f : Fields) (itext : Option (List Node)) (rk rest bk
       simp only [if_true, List.all_cons, List.all_nil, Bool.and_true, Bool.and_eq_true]; exact ⟨h1, h2⟩
   have hmodel : validDoc (pyS f) (pyNode "model".toList (modelAttrs f) (modelKids f itext rk rest)) = true :=
     validDoc_elem0 (pyScope_modelAttrs f) (all_setAttrs _ _ [] rfl hmodelA)
-      (nameValid_plain _ _ (by decide) (by decide)) hmk
+      (nameValid_plain _ _ (by decide) (by decide)) hmk (by decide)
   have htitle : validDoc (pyS f) (pyNode "h:title".toList [] [.text false f.title]) = true :=
     validDoc_elem0 pyScope_nil (all_nil_valid _)
       (nameValid_prefixed _ _ "h".toList (by decide) (by decide) hh)
-      (validKids_cons (by simpa [validDoc] using H.title) (validKids_nil _))
+      (validKids_cons (by simpa [validDoc] using H.title) (validKids_nil _)) (by decide)
   have hhead : validDoc (pyS f) (pyNode "h:head".toList [] [pyNode "h:title".toList [] [.text false f.title],
       pyNode "model".toList (modelAttrs f) (modelKids f itext rk rest)]) = true :=
     validDoc_elem0 pyScope_nil (all_nil_valid _)
       (nameValid_prefixed _ _ "h".toList (by decide) (by decide) hh)
-      (validKids_cons htitle (validKids_cons hmodel (validKids_nil _)))
+      (validKids_cons htitle (validKids_cons hmodel (validKids_nil _))) (by decide)
   have hbodyA : (setAttrs [] (optAttr "class" f.style)).all (attrValid (pyS f)) = true := by
     rw [bodyAttrs_eq]
     unfold optAttr
@@ -333,9 +348,9 @@ theorem validator_complete (f : Fields) (itext : Option (List Node)) (rk rest bk
       exact attrValid_intro _ _ _ (nd _ _ (by decide)) (nameValid_plain _ _ (by decide) (by decide)) H.style
   have hbody : validDoc (pyS f) (pyNode "h:body".toList (optAttr "class" f.style) bk) = true :=
     validDoc_elem0 (pyScope_bodyAttrs f.style) hbodyA
-      (nameValid_prefixed _ _ "h".toList (by decide) (by decide) hh) pbk
+      (nameValid_prefixed _ _ "h".toList (by decide) (by decide) hh) pbk (by decide)
   have hS : (setAttrs [] (getNsmap f)).filterMap pyDeclared ++ [] = pyS f := List.append_nil _
-  refine validDoc_elem ?_ ?_ ?_ <;> rw [hS]
+  refine validDoc_elem ?_ ?_ ?_ (by decide) <;> rw [hS]
   · exact htmlAttrs_valid f H.tokens _
   · exact nameValid_prefixed _ _ "h".toList (by decide) (by decide) hh
   · exact validKids_cons hhead (validKids_cons hbody (validKids_nil _))
@@ -344,15 +359,15 @@ theorem validator_complete (f : Fields) (itext : Option (List Node)) (rk rest bk
 
 /-- **soundness and completeness together**: for a valid header and valid, `]`-free, DOM parts the
     conversion tail succeeds *and* the text it returns satisfies C01 as the oracle states it
-    (given the document stays clear of the reserved namespace names — findings F2b-reserved / F3x). -/
+    -/
 theorem valid_input_accepted_and_holds (f : Fields) (itext : Option (List Node)) (rk rest bk : List Node)
     (H : HeaderValid f) (P : PartsValid f itext rk rest bk)
-    (hb : noBrTree (assemble f itext rk rest bk) = true) (hr : noReserved (assemble f itext rk rest bk) = true)
+    (hb : noBrTree (assemble f itext rk rest bk) = true)
     (hd : PartsDom itext rk rest bk) (pretty : Bool) :
     validDoc [] (assemble f itext rk rest bk) = true ∧
     holds (renderDoc pretty (assemble f itext rk rest bk)) (normAttrVal f.idString) = true :=
   ⟨validator_complete f itext rk rest bk H P,
-   accepted_assembled_holds f itext rk rest bk (validator_complete f itext rk rest bk H P) hb hr hd pretty⟩
+   accepted_assembled_holds f itext rk rest bk (validator_complete f itext rk rest bk H P) hb hd pretty⟩
 
 -- non-vacuity: the example header and parts satisfy the hypotheses
 theorem exHeaderValid : HeaderValid exFields := by
